@@ -490,3 +490,53 @@ def main(argv=None):
     except HarnessError as e:
         print(f"HARNESS-ERROR property={a.pid.upper()}: {e}", file=sys.stderr)
         return 2
+
+
+# --------------------------------------------------------------------------------------------
+# convenience for E1 property modules: gen_cases(unit, ctx) + check_case(case, ctx) -> Res
+
+class Res:
+    """Outcome of checking one case."""
+    __slots__ = ("viols", "nontrivial", "outcome", "flags", "transitions", "validated", "tags")
+
+    def __init__(self):
+        self.viols = []          # (sig, detail)
+        self.nontrivial = False
+        self.outcome = "ok"
+        self.flags = []
+        self.transitions = 1
+        self.validated = 1
+        self.tags = {}
+
+    def bad(self, sig, detail=""):
+        self.viols.append((sig, str(detail)[:1500]))
+
+    def __iter__(self):
+        return iter(self.viols)
+
+
+def std_run_unit(mod):
+    """run_unit for modules that define gen_cases/check_case; samples the middle case of a unit."""
+    def run_unit(unit, acc, ctx):
+        k = 0
+        want = getattr(mod, "SAMPLE_AT", 7)
+        for case in mod.gen_cases(unit, ctx):
+            res = mod.check_case(case, ctx)
+            acc.case(key=jkey(case), nontrivial=res.nontrivial, transitions=res.transitions, validated=res.validated)
+            for f in res.flags:
+                acc.flags[f] += 1
+            acc.outcomes.add(res.outcome if not res.viols else "VIOL:" + res.viols[0][0])
+            for sig, detail in res.viols:
+                acc.violation(sig, case, detail, res.tags)
+            if k == want and (res.nontrivial or not acc.samples):
+                acc.sample(case)
+            elif k > want and not acc.samples and res.nontrivial:
+                acc.sample(case)
+            k += 1
+    return run_unit
+
+
+def std_replay(mod):
+    def replay(case, ctx):
+        return list(mod.check_case(case, ctx).viols)
+    return replay
